@@ -1938,3 +1938,194 @@ func (la *lockAnalysis) deferredUnlockInLoop(fn *ssa.Function, lock *types.Var) 
 	}
 	return false
 }
+
+// ---------------------------------------------------------------------------
+// K-JSONQUOTE: the wire encoders never quote a string with Go syntax.
+//
+// strconv.Quote / AppendQuote and the %q verb write Go string literals: control
+// characters become \x1b, \a, \v and non-printable runes \U000e0001, none of
+// which is JSON. A hand-written fast path in a MarshalJSON method that uses
+// them produces text the peer (and this library's own decoder) rejects for
+// some strings only. One obligation per MarshalJSON method of package ovsdb,
+// over everything it reaches inside the package.
+
+func ruleKJSONQUOTE(p *Program, r *Reporter) {
+	const id = "K-JSONQUOTE"
+	goQuote := func(c ssa.CallInstruction) string {
+		sc := c.Common().StaticCallee()
+		if sc == nil || sc.Pkg == nil {
+			return ""
+		}
+		switch sc.Pkg.Pkg.Path() {
+		case "strconv":
+			if strings.HasPrefix(sc.Name(), "Quote") || strings.HasPrefix(sc.Name(), "AppendQuote") {
+				return "strconv." + sc.Name()
+			}
+		case "fmt":
+			if sc.Name() == "Errorf" {
+				return "" // an error message, not wire output
+			}
+			for _, a := range c.Common().Args {
+				if k, ok := a.(*ssa.Const); ok && k.Value != nil && k.Value.Kind() == constant.String {
+					f := constant.StringVal(k.Value)
+					for i := 0; i+1 < len(f); i++ {
+						if f[i] != '%' {
+							continue
+						}
+						j := i + 1
+						for j < len(f) && strings.ContainsRune("+-# 0123456789.*[]", rune(f[j])) {
+							j++
+						}
+						if j < len(f) && f[j] == 'q' {
+							return "fmt." + sc.Name() + " with %q"
+						}
+						i = j
+					}
+				}
+			}
+		}
+		return ""
+	}
+	n := 0
+	for _, fn := range p.srcFuncs {
+		if pkgOf(fn) != "ovsdb" || fn.Name() != "MarshalJSON" || fn.Signature.Recv() == nil || fn.Parent() != nil {
+			continue
+		}
+		n++
+		bad, pos := "", fn.Pos()
+		for _, g := range p.Reach(fn) {
+			for _, b := range g.Blocks {
+				for _, ins := range b.Instrs {
+					if c, ok := ins.(ssa.CallInstruction); ok && bad == "" {
+						if q := goQuote(c); q != "" {
+							bad, pos = q+" in "+funcName(g), ins.Pos()
+						}
+					}
+				}
+			}
+		}
+		r.Ob(id, funcName(fn), "no Go-syntax quoting", pos, bad == "", true,
+			ifs(bad == "", "strings reach the wire through encoding/json only", "the encoder quotes a string with "+bad+": Go escapes (\\x1b, \\a, \\v, \\U…) are not JSON, so a row holding such a string cannot be sent or read back"))
+	}
+	r.Count(id, 0)
+	_ = n
+}
+
+// ---------------------------------------------------------------------------
+// S-CONNFLAG: the client never reports being connected without a connection.
+//
+// Invariant (at every release of rpcMutex): rpcClient == nil  =>  !connected.
+// Every statement that stores nil into ovsdbClient.rpcClient is therefore paired,
+// in the same straight-line piece of code (the same basic block, so under the
+// same hold of rpcMutex), with a store of false into ovsdbClient.connected.
+// A helper that only resets rpcClient is accepted when all its call sites are
+// in the connect path (connect and the private functions it reaches) and none
+// of them can run after connect() has stored true into connected: connect is
+// entered with rpcClient == nil, hence with connected == false.
+// Conversely `connected = true` is only stored by connect.
+
+func ruleSCONNFLAG(p *Program, r *Reporter) {
+	const id = "S-CONNFLAG"
+	rpc := p.Field("client", "ovsdbClient", "rpcClient")
+	conn := p.Field("client", "ovsdbClient", "connected")
+	connect := p.Fn("client", "ovsdbClient", "connect")
+	if rpc == nil || conn == nil || connect == nil {
+		r.Anchor(id, "client.ovsdbClient.rpcClient / connected / connect")
+		return
+	}
+	storeOf := func(ins ssa.Instruction, f *types.Var) (ssa.Value, bool) {
+		st, ok := ins.(*ssa.Store)
+		if !ok {
+			return nil, false
+		}
+		fa, ok := st.Addr.(*ssa.FieldAddr)
+		if !ok || fieldOfAddr(fa) != f {
+			return nil, false
+		}
+		return st.Val, true
+	}
+	isBool := func(v ssa.Value, want bool) bool {
+		c, ok := v.(*ssa.Const)
+		return ok && c.Value != nil && c.Value.Kind() == constant.Bool && constant.BoolVal(c.Value) == want
+	}
+	connectRegion := map[*ssa.Function]bool{}
+	for _, g := range p.Reach(connect) {
+		connectRegion[g] = true
+	}
+	// blocks of connect() that can run after `connected = true`
+	var trueStores []*ssa.BasicBlock
+	n := 0
+	for _, fn := range p.srcFuncs {
+		if pkgOf(fn) != "client" {
+			continue
+		}
+		for _, b := range fn.Blocks {
+			for _, ins := range b.Instrs {
+				if v, ok := storeOf(ins, conn); ok && isBool(v, true) {
+					n++
+					okT := fn == connect
+					if okT {
+						trueStores = append(trueStores, b)
+					}
+					r.Ob(id, funcName(fn), "connected = true", ins.Pos(), okT, true,
+						ifs(okT, "only connect() reports the client connected, as its last step", funcName(fn)+" sets connected outside connect(): the client can report being connected before its monitors are re-established"))
+				}
+			}
+		}
+	}
+	for _, fn := range p.srcFuncs {
+		if pkgOf(fn) != "client" {
+			continue
+		}
+		for _, b := range fn.Blocks {
+			for _, ins := range b.Instrs {
+				v, ok := storeOf(ins, rpc)
+				if !ok || !isNilConst(v) {
+					continue
+				}
+				n++
+				paired := false
+				for _, i2 := range b.Instrs {
+					if v2, ok := storeOf(i2, conn); ok && isBool(v2, false) {
+						paired = true
+					}
+				}
+				if paired {
+					r.Ob(id, funcName(fn), "rpcClient = nil", ins.Pos(), true, true, "connected is cleared in the same piece of straight-line code")
+					continue
+				}
+				// a reset helper of the connect path
+				sites := p.CallSitesOf(fn)
+				okH, why := len(sites) > 0 && fn.Parent() == nil && !isExportedEntry(fn), ""
+				if !okH {
+					why = "the connection is dropped without clearing connected: Connected() keeps answering true while the client has no connection"
+				}
+				for _, s := range sites {
+					if !okH {
+						break
+					}
+					if _, plain := s.instr.(*ssa.Call); !plain {
+						okH, why = false, funcName(fn)+" drops the connection without clearing connected and runs on its own goroutine or deferred ("+p.Pos(s.instr.Pos())+"): Connected() keeps answering true while the client has no connection"
+						break
+					}
+					if !connectRegion[s.caller] {
+						okH, why = false, funcName(fn)+" drops the connection without clearing connected and is called from "+funcName(s.caller)+", outside the connect path"
+						break
+					}
+					if s.caller == connect {
+						for _, tb := range trueStores {
+							if tb == s.instr.Block() || newFlowCtx(connect).blockReach(tb, s.instr.Block()) {
+								okH, why = false, "connect() can drop the connection after it has set connected = true"
+							}
+						}
+					}
+				}
+				r.Ob(id, funcName(fn), "rpcClient = nil", ins.Pos(), okH, true,
+					ifs(okH, "reset helper called only on the failure paths of connect(), which is entered with rpcClient == nil and so with connected == false, and sets connected = true as its last step", why))
+			}
+		}
+	}
+	if n < 4 {
+		r.Anchor(id, fmt.Sprintf("%d stores of rpcClient = nil / connected = true, expected >= 4", n))
+	}
+}
